@@ -151,7 +151,7 @@ class _:
 
     @staticmethod
     def modifies(o):
-        return [("alloc",)]
+        return [("fresh-objs", "Scaffold", scaffold_fields()), ("fresh-lists", ROW), ("alloc",), ("ralloc",)]
 
     @staticmethod
     def ensures(o, n, res):
@@ -160,6 +160,7 @@ class _:
             ("name", res.name == o.self.name),
             ("orig", z3.And(res.original_name.z == o.self.original_name.z, res.original_tags.z == o.self.original_tags.z)),
             ("source-untouched", z3.And(n.self.rows.same(o.self.rows), n.self.rows.len == o.self.rows.len)),
+            ("fresh", z3.And(res.z >= o.alloc, res.rows.z >= o.alloc)),
         ]
 
     loops = {
